@@ -27,6 +27,7 @@ type Violation struct {
 	// fails only after the cases enumerated before it in that unit (hidden state in the code
 	// under test), in which case replay re-runs the unit.
 	Unit             string `json:"unit,omitempty"`
+	Worker           string `json:"worker,omitempty"` // "i/n": the worker's unit sequence is the history
 	Tier             string `json:"tier,omitempty"`
 	HistoryDependent bool   `json:"history_dependent,omitempty"`
 }
@@ -67,6 +68,7 @@ type Result struct {
 	sampleEvery map[string]int64
 	perScopeNew map[string]int
 	CurUnit     string `json:"-"`
+	CurWorker   string `json:"-"`
 	CurTier     string `json:"-"`
 }
 
@@ -133,7 +135,7 @@ func (r *Result) Incompletef(f string, a ...any) {
 
 // Violate records a failing case; it is classified against the active known findings first.
 func (r *Result) Violate(v Violation) {
-	v.Unit, v.Tier = r.CurUnit, r.CurTier
+	v.Unit, v.Tier, v.Worker = r.CurUnit, r.CurTier, r.CurWorker
 	if r.Classifier != nil {
 		if id := r.Classifier(&v); id != "" {
 			v.Finding = id
